@@ -635,8 +635,8 @@ class DataFrameSchemaBackend(PandasSchemaBackend):
                 or col_name not in check_obj.columns
             ):
                 continue
-            check_obj[col_name] = check_obj[col_name].fillna(
-                col_schema.default
+            check_obj[col_name] = self.fill_default(
+                check_obj[col_name], col_schema
             )
 
         return check_obj
